@@ -16,6 +16,7 @@ pub fn gens() -> Vec<Gen> {
         Gen { name: "c10.disclosure_lists", prop: "C10", tags: &["parse", "empty", "disclosure", "compact", "src/lib.rs"], cases: cases_lists, check },
         Gen { name: "c10.kb", prop: "C10", tags: &["kb", "sd_hash", "verify_key_binding", "src/verifier.rs"], cases: cases_kb, check },
         Gen { name: "c10.tampered_jwt", prop: "C10", tags: &["tamper", "jwt"], cases: cases_tampered, check },
+        Gen { name: "c10.large", prop: "C10", tags: &["large", "many", "parts", "limit"], cases: cases_large, check },
         Gen { name: "c10.holder", prop: "C10", tags: &["holder", "create_presentation", "kb_jwt", "src/holder.rs"], cases: cases_holder, check },
     ]
 }
@@ -125,6 +126,43 @@ fn cases_kb(_rng: &mut Rng, sink: &mut dyn FnMut(J) -> bool) {
     }
 }
 
+/// Credentials with hundreds of disclosures, transcoded both ways.
+fn cases_large(_rng: &mut Rng, sink: &mut dyn FnMut(J) -> bool) {
+    let mut k = 0usize;
+    for n in [100usize, 250, 253, 254, 255, 256, 257, 300, 600, 1100] {
+        for shape in ["flat", "array", "nested"] {
+            k += 1;
+            let claims = match shape {
+                "flat" => {
+                    let mut m = json!({"iss": "i", "exp": FAR_EXP});
+                    for i in 0..n {
+                        m[format!("c{i}")] = json!(i);
+                    }
+                    m
+                }
+                "array" => json!({"iss": "i", "exp": FAR_EXP, "l": (0..n - 1).collect::<Vec<_>>()}),
+                _ => json!({"iss": "i", "exp": FAR_EXP, "o": {"p": (0..n / 2).map(|i| json!({"k": i})).collect::<Vec<_>>()}}),
+            };
+            let mut cfg = Cfg::simple(claims.clone(), Strategy::AllLevels).variant(k);
+            cfg.holder = if k % 2 == 0 { Some("es256".into()) } else { None };
+            cfg.decoys = false;
+            let sel = J::Object(select_all(&claims));
+            let mut c = cfg.to_json();
+            c["kind"] = json!("presented");
+            c["selection"] = sel.clone();
+            if !sink(c) {
+                return;
+            }
+            let mut c = cfg.to_json();
+            c["kind"] = json!("holder");
+            c["calls"] = json!([{"selection": sel, "kb": false}]);
+            if !sink(c) {
+                return;
+            }
+        }
+    }
+}
+
 fn cases_holder(rng: &mut Rng, sink: &mut dyn FnMut(J) -> bool) {
     let claims = json!({"iss": "i", "exp": FAR_EXP, "a": "x", "b": {"c": 1, "d": 2}, "e": ["f", "g"], "\u{1F600}": [[1], {"k": null}]});
     let sels = [
@@ -193,6 +231,18 @@ fn compare_formats(p: &Parts, key: &J, aud: Option<&str>, nonce: Option<&str>) -
         ("json", "json with an extra unknown member", p.to_json_styled(true, true)),
     ];
     let mut variants = variants;
+    // JWS-looking unknown members must be ignored like any other unknown member
+    let with_member = |name: &str, value: J| -> String {
+        let mut v: J = serde_json::from_str(&p.to_json_styled(true, false)).unwrap_or(J::Null);
+        v[name] = value;
+        jstr(&v)
+    };
+    variants.push(("json", "json with extra member header: {kid}", with_member("header", json!({"kid": "k1"}))));
+    variants.push(("json", "json with extra member header: {disclosures: []}", with_member("header", json!({"disclosures": [], "alg": "none"}))));
+    variants.push(("json", "json with extra member header: {kb_jwt: null}", with_member("header", json!({"kb_jwt": null}))));
+    variants.push(("json", "json with extra member signatures: []", with_member("signatures", json!([]))));
+    variants.push(("json", "json with extra member unprotected: {..}", with_member("unprotected", json!({"disclosures": ["x"], "kb_jwt": "y"}))));
+    variants.push(("json", "json with extra member disclosures2", with_member("disclosures2", json!(["W10"]))));
     if p.kb.is_none() {
         // compact cannot distinguish "no KB-JWT" from an empty one: JSON kb_jwt "" must behave alike
         let mut q = p.clone();
@@ -242,6 +292,16 @@ pub fn check(case: &J) -> Verdict {
             };
             let kbs = kb.as_ref().and_then(|k| make_kb(&crate::keys::holder_enc(&k.holder), crate::keys::holder_alg(&k.holder), Some("kb+jwt"), &honest_kb_claims(k, &issued.jwt, &l)));
             let p = Parts { jwt: issued.jwt.clone(), disclosures: l, kb: kbs };
+            compare_formats(&p, &own_key, aud.as_deref(), nonce.as_deref())
+        }
+        "presented" => {
+            // an honest presentation for the given selection, verified in every serialization
+            let Some(sel) = case["selection"].as_object() else { return Verdict::Trivial };
+            let (_, pres) = match honest_presentation(&cfg, sel) {
+                Ok(x) => x,
+                Err(v) => return v,
+            };
+            let Some(p) = Parts::parse(&pres, &cfg.format) else { return Verdict::Trivial };
             compare_formats(&p, &own_key, aud.as_deref(), nonce.as_deref())
         }
         "tampered" => {
@@ -320,7 +380,14 @@ pub fn check(case: &J) -> Verdict {
                 Ok(x) => x,
                 Err(v) => return v,
             };
-            let texts = [("compact", issued.to_compact()), ("json", issued.to_json())];
+            let with_extra = {
+                let mut v: J = serde_json::from_str(&issued.to_json()).unwrap_or(J::Null);
+                v["header"] = json!({"kid": "k1"});
+                v["signatures"] = json!([]);
+                v["disclosures2"] = json!(["x"]);
+                jstr(&v)
+            };
+            let texts = [("compact", issued.to_compact()), ("json", issued.to_json()), ("json", with_extra)];
             let mut holders = Vec::new();
             for (f, t) in &texts {
                 match sut::holder_new(t, f) {
@@ -341,7 +408,8 @@ pub fn check(case: &J) -> Verdict {
                         return fail(format!("call {i} on the {f} holder: PANIC: {m}"), "same behaviour in both forms");
                     }
                 }
-                match (&outs[0].1, &outs[1].1) {
+                for jdx in 1..outs.len() {
+                match (&outs[0].1, &outs[jdx].1) {
                     (Out::Err(_), Out::Err(_)) => {}
                     (Out::Ok(c), Out::Ok(j)) => {
                         let (Some(pc), Some(pj)) = (Parts::parse(c, "compact"), Parts::parse(j, "json")) else {
@@ -353,7 +421,7 @@ pub fn check(case: &J) -> Verdict {
                             return fail(
                                 format!(
                                     "call {i} (selection {}, kb requested: {use_kb}): compact holder -> {} disclosures, kb {}; JSON holder -> {} disclosures, kb {}",
-                                    jstr(&call["selection"]), pc.disclosures.len(), pc.kb.is_some(), pj.disclosures.len(), pj.kb.is_some()
+                                    short(&jstr(&call["selection"]), 200), pc.disclosures.len(), pc.kb.is_some(), pj.disclosures.len(), pj.kb.is_some()
                                 ),
                                 "holders built from either form select the same disclosures and carry a KB-JWT in the same cases",
                             );
@@ -372,8 +440,9 @@ pub fn check(case: &J) -> Verdict {
                         }
                     }
                     (a, b) => {
-                        return fail(format!("call {i} (selection {}): compact holder -> {}; JSON holder -> {}", jstr(&call["selection"]), a.brief(), b.brief()), "same outcome from holders built from either form");
+                        return fail(format!("call {i} (selection {}): compact holder -> {}; JSON holder{} -> {}", short(&jstr(&call["selection"]), 200), a.brief(), if jdx == 2 { " (document with extra unknown members header / signatures / disclosures2)" } else { "" }, b.brief()), "same outcome from holders built from either form");
                     }
+                }
                 }
             }
             Verdict::Pass
